@@ -39,6 +39,7 @@ REGISTRY = {
     "MultiDigit25": ("leaf", lambda: MultiDigit(base=2, digits=5)),
     "OneOf_SpacesHex": ("leaf", lambda: OneOf(Spaces(-1, "g"), HexInt())),
     "OneOf_DictSpacesHex": ("leaf", lambda: OneOf(Dict([-1], ["."]), Spaces(0, "g"), HexInt())),
+    "OneOf_HexDictUpper": ("leaf", lambda: OneOf(HexInt(), Dict([-1, -2, -3], ["A", "F", "G"]))),     # codes that only differ in case from hex digits
     "Seq_Hex": ("top", lambda: Seq(HexInt(), W)),
     "Seq_SpacesHex": ("top", lambda: Seq(OneOf(Spaces(-1, "g"), HexInt()), W)),
     "Seq_MultiDigit33": ("top", lambda: Seq(MultiDigit(base=3, digits=3), W)),
